@@ -7,7 +7,7 @@ From one widget-tree spec (vlib.gen_widgets) two identical but separate trees ar
   world A  uses urwid.CanvasCache exactly as an application would; the canvases A hands out are kept
            alive together with a snapshot of their content - and so is every finalized canvas below
            them (the canvases the cache handed to the parent widgets).  case["hold"] == "all": until a
-           "drop" op releases them (+ gc.collect); "last": like a Screen, only the canvas tree of the
+           "drop" op releases them (+ gc.collect(1)); "last": like a Screen, only the canvas tree of the
            latest root rendering, the previous one is released after the new one has been rendered;
   world B  performs every call with ``CanvasCache.fetch -> None`` and ``CanvasCache.store -> no-op``
            patched in (restored afterwards): for B the cache is always empty and B never adds to it,
@@ -15,8 +15,8 @@ From one widget-tree spec (vlib.gen_widgets) two identical but separate trees ar
            (``CanvasCache.clear()`` would also drop A's entries).
 
 Every op (render/rows of any node at one of 2-3 recurring sizes and either focus, keypress,
-mouse_event, a public mutator of a node addressed by its index in walk order of the *live* tree,
-drop+gc) is applied to A and then to B.  After every op the root is rendered in both worlds at the
+mouse_event, a public mutator of a node addressed by its index in walk order of the *live* tree or
+of the node mutated last ("again"), drop+gc) is applied to A and then to B.  After every op the root is rendered in both worlds at the
 current view (size, focus) and compared:
 
   content-differs   same cols/rows and the same rows of (attr, charset, bytes) runs (adjacent runs with
@@ -24,7 +24,8 @@ current view (size, focus) and compared:
   cursor-differs    canvas.cursor equal
   rows-differ       rows(size, focus) equal (sub-clause render-disagrees-with-rows:<Class> when the fresh
                     world's own render() and rows() disagree: C01's subject showing through the cache)
-  one-world-raises  an op or render that raises in exactly one world
+  one-world-raises  a render()/rows() call that raises with the cache and not without it on the same tree
+                    (or the other way round)
   cached-canvas-modified   every canvas A handed out still has the content/cursor snapshotted when it
                     was handed out (checked after every op, at every drop and at the end)
   finalized-canvas-mutable every Canvas/CompositeCanvas mutator called on a handed-out canvas raises
@@ -37,8 +38,9 @@ twins' states drifted apart earlier (a cache hit skipped a side effect of render
 silent about that and the history ends without verdict (counted: twins-diverged-without-stale-canvas).
 
 Deliberately weak readings:
-  * same-tree confirmation (above); differing return values of keypress / mouse_event / selectable / pack or
-    differing tree shapes between the twins are state divergence, not a verdict;
+  * same-tree confirmation (above); differing return values of keypress / mouse_event / selectable / pack,
+    differing tree shapes, or a mutator / keypress / mouse_event raising in one twin only are state divergence,
+    not a verdict (DESIGN.md counted the last as a violation; nothing can be re-run on the same tree there);
   * an op that raises the same exception *type* in both worlds ends the history (exceptions are
     C01/C07/C08's business); a history during which urwid emitted its own WidgetWarning is discarded;
   * pop-up coordinates and other canvas "coords" entries are not compared (content and cursor only);
@@ -74,15 +76,18 @@ RULE = (
     "(A cached / B with CanvasCache.fetch+store patched out). Ops: view(size index, focus); render / rows of "
     "any live node at a recurring size; keypress (16 keys) and mouse press (buttons 1/4/5, any cell) on the "
     "root; public mutation of the node at index n (walk order of the live tree) chosen from that class's "
-    "mutators (or, op 'again', of the node mutated last): Text set_text/set_align_mode/set_wrap_mode, Edit set_caption/set_edit_text/set_edit_pos/"
-    "insert_text/set_mask, IntEdit, Button.set_label, CheckBox/RadioButton set_state/toggle_state/set_label, "
+    "mutators (or, op 'again', of the node mutated last): Text set_text (incl. '')/set_align_mode/set_wrap_mode, "
+    "Edit set_caption/set_edit_text/set_edit_pos/insert_text/set_mask, IntEdit, Button.set_label, CheckBox/RadioButton set_state/toggle_state/set_label, "
     "ProgressBar set_completion/done, BarGraph set_data/set_bar_width, BigText set_text/set_font, AttrMap "
     "set_attr_map/set_focus_map, AttrWrap set_attr/set_focus_attr, LineBox.set_title, Padding align=/width=, "
     "original_widget= on every decoration, Pile/Columns/GridFlow contents insert/delete/assign/options + "
     "focus_position=, GridFlow.cell_width=, Frame header/body/footer=/focus_position=, Overlay contents[0]/[1]= "
     "and set_overlay_parameters, ListBox set_focus/set_focus_valign/focus_position= and walker insert/delete/"
-    "replace, Scrollable.set_scrollpos, ScrollBar side/width; drop all held canvases + gc.collect(). ~20% of "
-    "the ops are not followed by the comparison render. Non-trivial: a mutation of a strict descendant of the "
+    "replace, Scrollable.set_scrollpos, ScrollBar side/width; drop all held canvases + gc.collect(1). ~20% of "
+    "the ops are not followed by the comparison render; 1 in 7 list elements is a correlated pattern (change "
+    "without redraw / other view / change again; view A, view B, change, view A; three changes of one widget). "
+    "Oracle after every op: root rendering of A == B (content runs, cursor), rows equal, confirmed on the same "
+    "tree; every held canvas (and every finalized canvas below it) unchanged; canvas mutators raise. Non-trivial: a mutation of a strict descendant of the "
     "root is followed by the comparison render of the root at a (size, focus) that was rendered before the "
     "mutation while the canvases were still held; distinct by hash of the case."
 )
@@ -97,7 +102,10 @@ ASSUMPTIONS = [
     "op raising the same exception type in both worlds ends the history without verdict; a FAILING history in which "
     "a widget was handed a size with no room for its borders/margins or a dimension < 1 (gen_widgets.starved, as "
     "C01) is discarded",
-    "CPython reference counting: canvases are released when the harness drops them (plus gc.collect())",
+    "CPython reference counting: canvases are released when the harness drops them (plus gc.collect(1): young "
+    "generations only, a full collection costs 0.3 s per call under Hypothesis' heap; canvases form no cycles)",
+    "a twin difference that the same tree does not show (A cached == A re-rendered without the cache) is state "
+    "drift caused by render() side effects skipped on a cache hit; the statement is read as silent about it",
 ]
 
 _CTX = None
@@ -714,7 +722,11 @@ def check_finalized(canv, widget, size, focus, what):
     for name, fn in _mutator_trials(canv, widget, size, focus):
         try:
             fn()
-        except CanvasError:
+        except CanvasError as e:
+            # Canvas._finalized_error is ONE exception instance raised again and again: its __traceback__ chain
+            # keeps every frame (and so every refused canvas) alive, which would defeat the release / garbage
+            # collection schedule this check is about.  Drop it.
+            e.__traceback__ = None
             continue
         raise Violation("finalized-canvas-mutable", f"{what}: {name}() on the canvas handed out by render() did not raise CanvasError")
 
@@ -758,20 +770,34 @@ class Run:
                 raise
             return ("exc", e)
 
-    def both(self, what, fn):
+    def both(self, what, fn, query=False):
+        """fn(world) in A, then in B.  Same exception type in both: the history ends (_Stop).  An exception in one
+        world only: for a query (render / rows: query=True) it is confirmed on the same tree - the query is
+        repeated on A with the cache patched out and must behave differently from A with the cache - and is then
+        a violation; for a state-changing op (mutator, keypress, mouse_event) nothing can be repeated, the twins'
+        states may have drifted apart (see same_tree) and the history ends without verdict."""
         ra = self._call(self.A, fn)
         rb = self._call(self.B, fn)
-        if ra[0] == "exc" and rb[0] == "exc":
-            if type(ra[1]) is type(rb[1]):
-                raise _Stop(type(ra[1]).__name__)
-            raise Violation("one-world-raises", self.msg(
-                f"{what}: cached world raises {type(ra[1]).__name__}: {ra[1]} @{urwid_frame(ra[1])}, "
-                f"fresh world raises {type(rb[1]).__name__}: {rb[1]} @{urwid_frame(rb[1])}"))
-        if ra[0] == "exc" or rb[0] == "exc":
-            who, e = ("cached", ra[1]) if ra[0] == "exc" else ("fresh", rb[1])
-            raise Violation("one-world-raises", self.msg(
-                f"{what}: only the {who} world raises {type(e).__name__}: {e} @{urwid_frame(e)}"))
-        return ra[1], rb[1]
+        if ra[0] == "ok" and rb[0] == "ok":
+            return ra[1], rb[1]
+        if ra[0] == "exc" and rb[0] == "exc" and type(ra[1]) is type(rb[1]):
+            raise _Stop(type(ra[1]).__name__)
+        if query:
+            try:
+                with self.uncached:
+                    fn(self.A)
+                again = "ok"
+            except Exception as e:  # noqa: BLE001
+                if not innermost_is_urwid(e):
+                    raise
+                again = "exc"
+            if again != ra[0]:
+                desc = lambda r: f"raises {type(r[1]).__name__}: {r[1]} @{urwid_frame(r[1])}" if r[0] == "exc" else "returns"  # noqa: E731
+                raise Violation("one-world-raises", self.msg(
+                    f"{what}: with the cache {desc(ra)}; the same tree without the cache {'raises' if again == 'exc' else 'returns'}; "
+                    f"the fresh twin {desc(rb)}"))
+        _count("twins-diverged:one-world-raises")
+        raise _Stop("twins-diverged")
 
     def msg(self, text):
         return f"{text} || history: " + "; ".join(self.trace)
@@ -784,7 +810,7 @@ class Run:
             canv = w.render(size, focus)
             return (w, canv, snap(canv))
 
-        (wa, ca, sa), (wb, cb, sb) = self.both(what, go)
+        (wa, ca, sa), (wb, cb, sb) = self.both(what, go, query=True)
         d = _first_diff(sa, sb)
         if d is not None:
             self.same_tree(wa, size, focus, sa)
@@ -972,7 +998,7 @@ class Run:
                     self.rendered.add((op[2] % len(sizes), focus))
                 _count("op:render-node")
             else:
-                ra, rb = self.both(f"rows of node {n}", lambda world: pick(world).rows(size, focus))
+                ra, rb = self.both(f"rows of node {n}", lambda world: pick(world).rows(size, focus), query=True)
                 if ra != rb:
                     self.rows_differ(f"node {n} ({name})", pick, size, focus, ra, rb)
                 _count("op:rows")
@@ -1000,7 +1026,7 @@ class Run:
                 cols, rows = size
             elif self.mode == "flow":
                 cols = size[0]
-                ra, rb = self.both(f"rows({size})", lambda world: world.root.rows(size, True))
+                ra, rb = self.both(f"rows({size})", lambda world: world.root.rows(size, True), query=True)
                 if ra != rb:
                     self.rows_differ("root", lambda world: world.root, size, True, ra, rb)
                 rows = ra
